@@ -245,10 +245,10 @@ def bstr(t, pol=True):
 
 def cmp_conds(subj_term, pred_names):
     """`a.cmp(&b)` matched against Ordering variants, as comparisons."""
-    if subj_term is None or subj_term[0] != 'call' or subj_term[1] not in ('std::cmp::Ord::cmp', 'core::cmp::Ord::cmp') or len(subj_term[2]) != 2:
+    if subj_term is None or subj_term[0] != 'call' or subj_term[1].split('::')[-1] != 'cmp' or not subj_term[1].startswith(('std::cmp::', 'core::cmp::')) or len(subj_term[2]) != 2:
         return None
     a, b = S.show(subj_term[2][0]), S.show(subj_term[2][1])
-    lt, gt, eq = '(%s < %s)' % (a, b), '(%s < %s)' % (b, a), '(%s == %s)' % (a, b)
+    lt, gt, eq = '(%s < %s)' % (a, b), '(%s < %s)' % (b, a), '(%s == %s)' % tuple(sorted([a, b]))
     names = frozenset(pred_names)
     table = {
         frozenset(['Less']): [(lt, True)], frozenset(['Greater']): [(gt, True)], frozenset(['Equal']): [(eq, True)],
@@ -273,10 +273,10 @@ def simplify(conds):
             if not m:
                 continue
             a, b = m.group(1), m.group(2)
-            lt, gt, eq = s, '(%s < %s)' % (b, a), '(%s == %s)' % (a, b)
-            eq2 = '(%s == %s)' % (b, a)
+            lt, gt, eq = s, '(%s < %s)' % (b, a), '(%s == %s)' % tuple(sorted([a, b]))
+            eq2 = eq
             val = {}
-            for name, key in (('lt', lt), ('gt', gt), ('eq', eq), ('eq', eq2)):
+            for name, key in (('lt', lt), ('gt', gt), ('eq', eq)):
                 for i, p in lits.get(key, []):
                     val.setdefault(name, (i, p))
             if len(val) < 2:
